@@ -291,6 +291,31 @@ def run_sig(case, rng, mon):
         mon.counters["eq_matches_params"] += 1
         if not (s == t) or (s != t):
             mism.append(("eq_matches_params", f"{cls}{p}: two signatures built from equal parameters compare unequal"))
+    if cls == "wishbone.Signature":
+        # the caller keeps (and later changes) the set it passed as `features`
+        for k in range(8):
+            mine = {wishbone.Feature(f) for f in FEATS if rng.random() < 0.5}
+            frozen = frozenset(f.value for f in mine)
+            s_ = wishbone.Signature(addr_width=4, data_width=32, granularity=8, features=mine)
+            mine ^= {wishbone.Feature(f) for f in FEATS if rng.random() < 0.7}
+            ref = wishbone.Signature(addr_width=4, data_width=32, granularity=8, features=frozen)
+            mon.counters["eq_matches_params"] += 1
+            if not (s_ == ref) or {f.value for f in s_.features} != set(frozen) or \
+                    {n_ for n_ in s_.members if n_ in FEATS} != set(frozen):
+                mism.append(("eq_matches_params", f"wishbone.Signature built from a set the caller later changed: features now "
+                                                  f"{sorted(f.value for f in s_.features)}, built with {sorted(frozen)}"))
+    if cls == "csr.FieldPort.Signature":
+        # two distinct enumeration classes that happen to share their name, of different widths, used one after the other
+        order = [2, 3, 5] if rng.random() < 0.5 else [5, 3, 2]
+        for w_ in order:
+            Mode = am_enum.Enum("Mode", {f"M{i}": i for i in range(1 << w_)} if w_ < 5 else {"A": 0, "B": (1 << w_) - 1})
+            s_ = csr.FieldPort.Signature(Mode, "rw")
+            mon.counters["members_follow_params"] += 1
+            wid = Shape.cast(Mode).width
+            got = Shape.cast(s_.members["r_data"].shape).width
+            if got != wid or not (s_ == csr.FieldPort.Signature(unsigned(wid), "rw")):
+                mism.append(("members_follow_params", f"FieldPort.Signature of a {wid}-bit enumeration named 'Mode' has {got}-bit "
+                                                      f"data members (another enumeration of the same name was used before)"))
     n = len(sigs)
     total_pairs = n * n
     exhaustive = total_pairs <= case["pairs"]
